@@ -62,6 +62,7 @@ def render(recipe):
     for fidx, f in enumerate(files):
         emit(fidx, 'import threading')
         emit(fidx, 'import random')
+        emit(fidx, 'import warnings')
         emit(fidx, 'G_INT = %d' % (fidx + 40))
         emit(fidx, 'G_LIST = [1, 2, 3]')
         emit(fidx, 'G_STR = "glob%d"' % fidx)
@@ -155,6 +156,9 @@ def render(recipe):
                 # start + join happen inside the harness helper with the parent's tracing suspended: while the child runs
                 # the parent delivers no trace events, so at most one program thread produces events at any time
                 rec(emit(fidx, '%s_t = SPAWN(lambda: %s, "T%d_%%d" %% NEXT())' % (pad, call_text(fi, args), sid)))
+            elif kind == 'warn':
+                # the program issues a warning; with the "default" action it is shown once per location
+                rec(emit(fidx, '%swarnings.warn("w%d", UserWarning)' % (pad, stmt[1])))
             elif kind == 'dyn':
                 # code run through exec / eval: frames of a '<string>' file whose globals are a bare dict (no __name__,
                 # no __file__) or the module's own
@@ -342,6 +346,13 @@ def run_program(recipe, rendered, tracer=None, values=None, register_sources=Tru
         # installed here, not through threading.settrace: the bootstrap of this harness-owned thread must not be
         # traced (an agent failure there would block the harness in Thread.start); threads the *program* spawns
         # are traced from their bootstrap on, exactly as application threads are
+        import warnings
+        old_show, old_filters = warnings.showwarning, list(warnings.filters)
+
+        def show(message, category, filename, lineno, file=None, line=None):
+            live_log.append(['warning-shown', category.__name__, str(message), os.path.basename(str(filename)), lineno])
+        warnings.showwarning = show
+        warnings.simplefilter('default', UserWarning)
         undo = apply_ambient(recipe.get('ambient') or [])
         dummies = {id(t) for t in threading.enumerate() if isinstance(t, threading._DummyThread)}
         threading.settrace(tracer)
@@ -366,6 +377,9 @@ def run_program(recipe, rendered, tracer=None, values=None, register_sources=Tru
         finally:
             for u in reversed(undo):
                 u()
+            warnings.showwarning = old_show
+            warnings.filters[:] = old_filters
+            warnings._filters_mutated()
         res.log = list(live_log)
         # the module namespaces are part of the program's final data
         res.log.append(['module-dunders', [sorted(k for k in m.__dict__ if k.startswith('__')) for m in mods]])
@@ -571,7 +585,7 @@ def program_recipes(draw, max_funcs=4, max_stmts=6, allow_threads=True, allow_ge
                 opts += ['hold'] * hold_bias
             if allow_threads and callees and depth == 0 and fi == 0:
                 opts += ['spawn']
-            opts += ['tick', 'dyn']
+            opts += ['tick', 'dyn', 'warn']
             # a finalisable local is bound once per invocation and never rebound: CPython keeps the f_locals snapshot
             # of a frame whose locals were read (by any trace function) until the frame exits, so *when* a rebound
             # value dies inside the invocation is not something an agent built on sys.settrace can preserve
@@ -596,6 +610,8 @@ def program_recipes(draw, max_funcs=4, max_stmts=6, allow_threads=True, allow_ge
                 body.append(['hold', name, draw(st.integers(0, n_values - 1))])
                 if name not in scope_all:
                     scope_all = scope_all + [name]
+            elif kind == 'warn':
+                body.append(['warn', draw(st.integers(0, 2))])
             elif kind == 'dyn':
                 body.append(['dyn', draw(st.integers(0, 3))])
             elif kind == 'fin':
